@@ -1013,6 +1013,10 @@ static Member *struct_designator(Token **rest, Token *tok, Type *ty) {
       continue;
     }
 
+    // Unnamed bitfield
+    if (!mem->name)
+      continue;
+
     // Regular struct member
     if (mem->name->len == tok->len && !strncmp(mem->name->loc, tok->loc, tok->len)) {
       *rest = tok->next;
@@ -2840,6 +2844,10 @@ static Member *get_struct_member(Type *ty, Token *tok) {
         return mem;
       continue;
     }
+
+    // Unnamed bitfield
+    if (!mem->name)
+      continue;
 
     // Regular struct member
     if (mem->name->len == tok->len &&
